@@ -157,11 +157,12 @@ Definition dispatch_misc (kind : string) (args : list string) : option string :=
     | _ => Some BADARGS end
   else if String.eqb kind "icmp6" then
     match args with
-    | [_; h; d; u; hf; hu] =>
-        match bytes_of_tok h, bool_of_tok d, bool_of_tok u, bool_of_tok hf, bool_of_tok hu with
-        | Some b, Some d', Some u', Some host, Some hu' =>
+    | [_; h; d; v6; hf; hu] =>
+        match bytes_of_tok h, bool_of_tok d, bool_of_tok hf, bool_of_tok hu,
+              (if String.eqb v6 "nil" then Some None else option_map (fun b => Some (of_bytes b)) (bytes_of_tok v6)) with
+        | Some b, Some d', Some host, Some hu', Some ip6 =>
             let s := of_bytes b in
-            Some (verdict_ret (icmp6_process lbl_any (slice_fuel s) (mkIcmp6Env d' u' host hu') s) "-")
+            Some (verdict_ret (icmp6_process lbl_any (slice_fuel s) (mkIcmp6Env d' host hu') ip6 s) "-")
         | _, _, _, _, _ => Some BADARGS end
     | _ => Some BADARGS end
   else if String.eqb kind "dhcp4" then
